@@ -1100,7 +1100,7 @@ class HtmlBlock(BlockToken):
             cls._end_cond = '?>'
             return 3
         # rule 4: tags that starts with <!, allow newlines in block
-        if stripped.startswith('<!') and stripped[2].isupper():
+        if stripped.startswith('<!') and stripped[2:3].isascii() and stripped[2:3].isalpha():
             cls._end_cond = '>'
             return 4
         # rule 5: CDATA declaration, allow newlines in block
